@@ -34,6 +34,16 @@ Subset (everything else raises Untranslatable):
     translation (scalars, indices, arrays, index arrays, masks, 2-D row arrays, tuples, None) against the prelude
     lean/TaurexModel/Gen/Prelude.lean (`Np.*`), partial evaluation of `is None` / `hasattr(x, '__len__')` tests under the
     declared calling pattern, loops over `enumerate(zip(...))` with `continue`, methods that assign attributes (`state=`).
+  * methods that assign attributes: `state=['self.x', …]` (declared in `attrs`) — `self.x = e` / `self.x op= e` bind a local,
+    a later `self.x` reads it, the value of the method (it falls off its end / bare `return`) is the tuple of the final
+    values (an attribute it never assigns flows through as a parameter); parameter kind 'pair' (a two-element sequence:
+    two scalars `p_0 p_1`; `p[0]`, `p[1]`, `f(*p)`); `returns='pair'` (`return e1, e2`); externals called with keywords:
+    `externals={'stats.norm.ppf': (leanname, arity, (keyword names in argument order))}`; enumeration members given by name
+    (`self._mode is Mode.A`, `self._mode = Mode.A` with `enums={'self._mode': (leanname, {'Mode.A': 0, …})}`).
+  * `dialect='obj'` (harness/translate_obj.py, read its docstring): optional values (`None`) as `Option`, `try/except` as a
+    Bool parameter, calls of translated (state) methods incl. `super().__init__`, closures defined inside a method, one
+    iteration of a loop as a function (dict records), Python lists / 1-D arrays as `List α` with list-valued externals, loops
+    over lists of abstract objects with `continue`, effect logs, TypeErrors inside loops (`Option` state).
 The translator is part of the trusted base; it is validated on every run by the tie theorems (the regenerated text must be
 *provably equal* to a model that the correspondence check runs against the real code on the same inputs)."""
 import ast
@@ -857,6 +867,12 @@ def fn_class(spec):
     if spec.get('dialect') == 'list':                     # C05/C13/C17: numpy 1-D arrays as `List`, typed, Gen/Prelude.lean
         from harness import translate_list
         return translate_list.VFn
+    if spec.get('dialect') == 'py':                       # C07/C14: dicts, lists, tuples, strings, exceptions (Gen/PyPrelude.lean)
+        from harness import translate_py
+        return translate_py.PyFn
+    if spec.get('dialect') == 'dyn':                      # C15/C16: dynamically typed Python values (Gen/DynPrelude.lean)
+        from harness import translate_dyn
+        return translate_dyn.DynFn
     return Fn
 
 
@@ -895,7 +911,9 @@ def translate_file(repo_root, specs, namespace, out_path, header=''):
     body = ('/-\n  GENERATED by harness/translate.py from the source text of the taurex package under check — do not edit.\n'
             '  %s\n-/\nimport TaurexModel.Num\n%sset_option linter.unusedVariables false\n\nnamespace %s\n\nsection\nvariable {α : Type} [Add α] [Sub α] [Mul α] [Div α] '
             '[Neg α] [LT α] [LE α]\n  [DecidableLT α] [DecidableLE α] [Taurex.Transc α] %s\nopen Taurex\n\n'
-            % (header, 'import TaurexModel.Gen.Prelude\n' if any(sp.get('dialect') == 'list' for sp in specs) else '',
+            % (header, ('import TaurexModel.Gen.Prelude\n' if any(sp.get('dialect') == 'list' for sp in specs) else '')
+               + ('import TaurexModel.Gen.PyPrelude\n' if any(sp.get('dialect') == 'py' for sp in specs) else '')
+               + ('import TaurexModel.Gen.DynPrelude\n' if any(sp.get('dialect') == 'dyn' for sp in specs) else ''),
                namespace, lits))
     body += '\n'.join(texts)
     body += '\nend\n\nend %s\n' % namespace
